@@ -123,7 +123,7 @@ def table():
     print(f"{n} kept changes; caught when first evaluated: {first}; caught by the checks as committed: {final}\n")
     # per round
     print("| round | kept | caught when first evaluated | neutralised by a later fix | caught by the checks as committed | not caught |\n|---|---|---|---|---|---|")
-    groups = [("1 (A/B)", "AB"), ("2 (C/D)", "CD"), ("3 (E/F)", "EF"), ("4 (G/H)", "GH"), ("5 (I/J)", "IJ"), ("6 (K/L)", "KL"), ("7 (M/N)", "MN"), ("8 (O, mini round: 10 properties, one change each)", "O"), ("reverse fixes", None)]
+    groups = [("1 (A/B)", "AB"), ("2 (C/D)", "CD"), ("3 (E/F)", "EF"), ("4 (G/H)", "GH"), ("5 (I/J)", "IJ"), ("6 (K/L)", "KL"), ("7 (M/N)", "MN"), ("8 (O, mini round: one change per property)", "O"), ("reverse fixes", None)]
     for label, letters in groups:
         k = f1 = f2 = neu = 0
         missed = []
